@@ -232,6 +232,19 @@ def oracle(case):
 				bad.append('changing an element built from its parameters changed the element: %r' % bytes(e1)[:80])
 		except Exception as ex:
 			bad.append('copying the parameters raised %s' % exc_name(ex))
+		# the credentials as the application reads them: the username / password attributes of the parsed element (text)
+		try:
+			enc = getattr(e, 'encoding', None) or 'utf-8'
+			ut, pt = u.decode(enc), p.decode(enc)
+		except (UnicodeDecodeError, LookupError):
+			ut = pt = None      # octets that are not text in the element's encoding: the attributes are not asked
+		if ut is not None:
+			try:
+				attrs = (e.username, e.password)
+				if attrs != (ut, pt):
+					bad.append('the attributes username / password of the parsed element are %r, composed from %r' % (attrs, (ut, pt)))
+			except Exception as ex:
+				bad.append('reading username / password of the parsed element raised %s: %s' % (exc_name(ex), ex))
 		if back != (u, p) or back2 != (u, p):
 			bad.append('parsed back %r / %r' % (back, back2))
 		expect = b'Basic ' + base64.b64encode(u + b':' + p)
